@@ -49,6 +49,29 @@ func genC09(seed uint64, tier string, idx int) *Plan {
 			style = "frame"
 		}
 		a := g.connActor(ci, frames, style, 5)
+		if !p.Svc.Filter && g.r.chance(25) {
+			// a transfer with a packet missing in the middle, held by the callbacks (every sub-package is delivered in
+			// this configuration), then more than 5 s of silence and further data: the server builds a re-request while
+			// the packets it has are still held
+			fr, tr := g.transferFrames(ci, []uint16{0x0200, 0x0704, 0x0800}[g.r.intn(3)], 3+g.r.intn(3), 0, false)
+			p.Expect.Xfers = append(p.Expect.Xfers, tr)
+			drop := 1 + g.r.intn(len(fr)-2)
+			all := p.Expect.Frames[ci]
+			for k := range fr {
+				if k == drop {
+					continue
+				}
+				fr[k].Xfer = len(p.Expect.Xfers)
+				all = append(all, fr[k])
+				a.Ops = append(a.Ops, Op{K: "send", Data: fr[k].Raw, End: true, Frame: len(all)})
+			}
+			a.Ops = append(a.Ops, Op{K: "quiet"}, Op{K: "sleep", D: int64(reissueAfter) + int64(1+g.r.intn(900))*1e6})
+			hb := g.mkFrame(ci, 0x0002, g.randSerial(), nil)
+			all = append(all, hb)
+			a.Ops = append(a.Ops, Op{K: "send", Data: hb.Raw, End: true, Frame: len(all)}, Op{K: "quiet"})
+			p.Expect.Frames[ci] = all
+			p.Faults = append(p.Faults, "pkt.loss", "clock.idle_advance")
+		}
 		if g.r.chance(40) {
 			// the connection closes at the end: the reader's teardown must not touch delivered messages
 			k := "fin"
